@@ -185,7 +185,7 @@ def gen(rng, tier, quarantine=()):
             ops.append({"op": "exit", "id": r["id"]})
             if not recs:
                 break
-    sc = {"prog": "decl", "ops": ops, "c16": True, "no_ref": True}
+    sc = {"prog": "decl", "ops": ops, "c16": True, "no_ref": True, "exact_failures": True}
     if generated:
         sc.update({"prog": "generated", "program": generated, "prog_name": f"gen{rng.randrange(1 << 40):x}"})
     return sc
